@@ -447,8 +447,10 @@ VariablesStack::findEntry(
 
     // There is guaranteed to be a context marker at
     // the bottom of the stack, so i should stop at
-    // 1.
-    for(size_type i = nElems - 1; i > 0; --i)
+    // 1.  The stack is still empty when the expression
+    // of a top-level parameter is evaluated before
+    // anything has been pushed.
+    for(size_type i = nElems > 0 ? nElems - 1 : 0; i > 0; --i)
     {
         StackEntry&                 theEntry = m_stack[i];
 
@@ -486,7 +488,10 @@ VariablesStack::findEntry(
         }
     }
 
-    if(theEntryIndex == m_stack.size() && fIsParam == false && true == fSearchGlobalSpace && m_globalStackFrameIndex > 1)
+    // The global stack frame index has its initial value (~0u) until
+    // a top-level variable has been pushed or the frame has been marked.
+    if(theEntryIndex == m_stack.size() && fIsParam == false && true == fSearchGlobalSpace &&
+       m_globalStackFrameIndex > 1 && m_globalStackFrameIndex <= m_stack.size())
     {
         // Look in the global space
         for(size_type i = m_globalStackFrameIndex - 1; i > 0; i--)
